@@ -387,7 +387,8 @@ def _expected_branches():
     ps = ['1', '2', 'inf', 'gen']
     out = ['code/_inner_default/dot', 'code/_inner_default/vdot',
            'code/_inner_default/tensordot', 'tInner/const', 'tInner/arr', 'pInner/const', 'pInner/arr', 'tDist/arr->norm',
-           'pDist/arr->norm', 'inner/notimpl', 'close1/near-1', 'info/uniformDiscr',
+           'pDist/arr->norm', 'inner/notimpl', 'inner/notimpl/top', 'inner/notimpl/nested',
+           'close1/near-1', 'info/uniformDiscr',
            'defaultWeight/given', 'defaultWeight/inf', 'defaultWeight/cellvolume',
            'mkAxis/n1', 'mkAxis/flags00', 'mkAxis/flags01', 'mkAxis/flags10', 'mkAxis/flags11',
            'dDist/nonuniform/const', 'dNorm/nonuniform/const', 'dInner/nonuniform/const']
@@ -888,6 +889,13 @@ def pspace_zoo(ctx, thr):
         # exponent 2 everywhere (inner product defined) in 60% of the trees
         p_all = 2 if rng.random() < 0.6 else None
         out.append(tree(rng.choice([0, 1, 2, 3]), cplx, p_all))
+    # exponent 2 on the upper levels, one leaf with another exponent two / three levels down:
+    # the inner product must be refused although the queried space has exponent 2
+    for pl in [1, INF, 1.5]:
+        deep = ('P', [('T', (2,), 'float64', 'C', None, pl)], ('a', [2.0]), 2)
+        if pl == 1.5:
+            deep = ('P', [deep, ('T', (1,), 'float64', 'C', None, 2)], None, 2)
+        out.append(('P', [('T', (3,), 'float64', 'C', ('c', 2.0), 2), deep], ('c', 0.5), 2))
     # power space with a big component (threshold inside a product space)
     out.append(('P', [('T', (thr + 1,), 'float64', 'C', None, 2)] * 2, ('a', [2.0, 0.5]), 2))
     return out
@@ -1270,6 +1278,10 @@ def compare(ctx, recs, outs):
                 ctx.disagree(case, impl, ans)
             elif op == 'inner':
                 ctx.hit('inner/notimpl')
+                if impl == 'err:notimpl':
+                    # where the refusal comes from: the space's own exponent, or only a
+                    # component somewhere below a chain of exponent-2 product spaces
+                    ctx.hit('inner/notimpl/' + ('top' if d_p(d) != 2 else 'nested'))
             continue
         if not ans.startswith('ok v='):
             ctx.disagree(case, impl, ans)
@@ -1425,7 +1437,9 @@ def custom_cases(ctx):
 
 CUSTOM_K = ['T', 'P', 'D-scaled', 'D-unscaled', 'D-nonuniform']
 CUSTOM_STRATA = ['custom/{}/{}/{}'.format(k, ck, op) for k in CUSTOM_K for ck in 'ind'
-                 for op in ('inner', 'norm', 'dist')]
+                 for op in ('inner', 'norm', 'dist')] + [
+    'custom/{}/form/{}'.format(k, op) for k in ('T', 'D-scaled') for op in ('inner', 'norm', 'dist')] + [
+    'custom/form/inner-xx-not-real', 'custom/form/norm-nan']
 
 
 def _cflat(u):
@@ -1462,9 +1476,11 @@ def custom_callable(c, calls):
     if ck == 'i':
         B = np.asarray(c['B'], dtype=float)
 
+        Cm = np.asarray(c['C'], dtype=float) if c.get('C') is not None else B
+
         def f(u, v):
             calls.append('inner')
-            return np.vdot(B.dot(_cflat(v)), B.dot(_cflat(u)))
+            return np.vdot(Cm.dot(_cflat(v)), B.dot(_cflat(u)))
         return {'inner': f}
     w = np.asarray(c['w'], dtype=float)
     if ck == 'n':
@@ -1544,6 +1560,8 @@ def custom_wire(c, op, X, Y=None):
                                      for a in custom_axes(c))
     if c['ck'] == 'i':
         cu = 'ck=i B=' + core.fmat(c['B'])
+        if c.get('C') is not None:
+            cu += ' C=' + core.fmat(c['C'])
     elif c['ck'] == 'n':
         cu = 'ck=n w=' + core.fl(c['w'])
     else:
@@ -1619,6 +1637,24 @@ def custom_zoo(ctx):
                         c['cap'] = rng.choice([1.0, 4.0, 16.0, 1024.0])
                 c['vseed'] = rng.getrandbits(32)
                 out.append(c)
+                if ck == 'i' and k in ('T', 'D-scaled'):
+                    # NON-admissible user form vdot(C v, B u), C != B, complex data: what does
+                    # the code do with inner(x, x) that is not real (two variants: C = B + N
+                    # keeps the real part positive for most x, C = -B makes it negative)
+                    for variant in ('perturbed', 'negative'):
+                        c2 = dict(c)
+                        c2['dtype'] = 'complex128'
+                        if variant == 'negative':
+                            c2['C'] = [[-t for t in row] for row in c['B']]
+                        else:
+                            Cm = [list(row) for row in c['B']]
+                            Cm[n - 1][0] += 1.0
+                            if n > 2:
+                                Cm[1][0] -= 0.5
+                            c2['C'] = Cm
+                        c2['form'] = variant
+                        c2['vseed'] = rng.getrandbits(32)
+                        out.append(c2)
     return out
 
 
@@ -1643,6 +1679,8 @@ def run_custom_case(ctx, c, lines, recs, collect=True):
     """Oracle on the real code (axioms the docstrings of the Custom* classes promise for the
     derived quantities, NotImplementedError where nothing can be derived, reference values in
     Fractions for spaces without boundary scaling) and the protocol lines for the model."""
+    if c.get('C') is not None:
+        return run_form_case(ctx, c, lines, recs, collect)
     problems = []
     calls = []
     k, ck = c['k'], c['ck']
@@ -1802,7 +1840,7 @@ def run_custom_case(ctx, c, lines, recs, collect=True):
                 bad('dist-triangle', 'd(x,y)={!r} d(x,z)+d(z,y)={!r}'.format(dxy, dxz + dzy))
             if ck != 'd':
                 onm = outcome(lambda: float((x - y).norm()))
-                if onm[0] != 'ok' or onm[1] != dxy:
+                if onm[0] != 'ok' or not eq(onm[1], dxy):
                     bad('dist-eq-norm-of-difference', 'd(x,y)={!r} ||x-y||={!r}'.format(dxy, onm))
             elif not custom_scaled(c):
                 ref = min(Fraction(c['cap']), sum(Fraction(wi) * abs(Fraction(u) - Fraction(v))
@@ -1816,9 +1854,88 @@ def run_custom_case(ctx, c, lines, recs, collect=True):
     return problems
 
 
+def run_form_case(ctx, c, lines, recs, collect=True):
+    """A user form that is NOT an inner product (vdot(C v, B u), C != B): no axiom can be
+    demanded; the oracle is the documented derivation itself, on the real code:
+    norm(x) = sqrt(inner(x, x).real) (nan when that is negative), dist(x, y) = norm(x - y),
+    and without boundary scaling inner(x, y) = the user's form in Fractions."""
+    import warnings
+    problems = []
+    calls = []
+    k = c['k']
+
+    def bad(what, detail):
+        problems.append((what, detail))
+        ctx.violation('custom-stream {}/form :: {}'.format(k, what), str(detail)[:400],
+                      {'cstream': c})
+    o = outcome(lambda: custom_build(c, calls))
+    if o[0] != 'ok':
+        bad('construction', o)
+        return problems
+    space = o[1]
+    n = custom_size(c)
+    vr = random.Random(c['vseed'])
+    X = [complex(vr.randint(-8, 8) / 4.0, vr.randint(-4, 4) / 2.0) for _ in range(n)]
+    Y = [complex(vr.randint(-8, 8) / 4.0, vr.randint(-4, 4) / 2.0) for _ in range(n)]
+    if all(v.imag == 0 for v in X):
+        X[0] = complex(X[0].real, 1.5)
+    oe = outcome(lambda: [custom_elem(c, space, v) for v in (X, Y)])
+    if oe[0] != 'ok':
+        bad('element', oe)
+        return problems
+    x, y = oe[1]
+    exact = custom_exact(c)
+    with warnings.catch_warnings():
+        warnings.simplefilter('ignore')
+        r = outcome(lambda: (complex(x.inner(y)), complex(x.inner(x)), float(x.norm()),
+                             float(x.dist(y)), float((x - y).norm())))
+    if r[0] != 'ok':
+        bad('raises', r)
+        return problems
+    ixy, ixx, nx, dxy, nxy = r[1]
+    if ixx.imag != 0:
+        ctx.hit('custom/form/inner-xx-not-real')
+    if not custom_scaled(c):
+        # without boundary scaling inner(x, x) IS the user's value: the documented derivation
+        want = math.sqrt(ixx.real) if ixx.real >= 0 else float('nan')
+        if not (nx == want or (math.isnan(nx) and math.isnan(want))):
+            bad('norm-is-sqrt-of-real-part-of-inner', '||x||={!r} <x,x>={!r}'.format(nx, ixx))
+        Bf = [[Fraction(t) for t in row] for row in c['B']]
+        Cf = [[Fraction(t) for t in row] for row in c['C']]
+
+        def mv(M, V):
+            return ([sum((M[i][j] * Fraction(V[j].real) for j in range(n)), Fraction(0))
+                     for i in range(n)],
+                    [sum((M[i][j] * Fraction(V[j].imag) for j in range(n)), Fraction(0))
+                     for i in range(n)])
+        (xr, xi), (yr, yi) = mv(Bf, X), mv(Cf, Y)
+        ref = (sum(p * q + s_ * t for p, q, s_, t in zip(xr, yr, xi, yi)),
+               sum(s_ * q - p * t for p, q, s_, t in zip(xr, yr, xi, yi)))
+        if cfrac(ixy) != ref:
+            bad('inner-reference-value', 'got {!r} want {}'.format(ixy, ref))
+    # scaled(x) - scaled(y) vs scaled(x - y): identical unless the boundary factor
+    # frac ** (1/2) is irrational (then one rounding apart)
+    if not (dxy == nxy or (math.isnan(dxy) and math.isnan(nxy)) or
+            (not exact and abs(dxy - nxy) <= 1e-12 * max(abs(dxy), abs(nxy)))):
+        bad('dist-eq-norm-of-difference', 'd(x,y)={!r} ||x-y||={!r}'.format(dxy, nxy))
+    if math.isnan(nx):
+        ctx.hit('custom/form/norm-nan')
+    if collect:
+        lines.append(custom_wire(c, 'cinner', X, Y))
+        recs.append((c, 'inner', ixy, True))
+        lines.append(custom_wire(c, 'cnorm', X))
+        recs.append((c, 'norm', nx, exact))
+        lines.append(custom_wire(c, 'cdist', X, Y))
+        recs.append((c, 'dist', dxy, exact))
+    ctx.case(('custom-stream', k, 'form', c.get('form')), c)
+    return problems
+
+
 def compare_custom(ctx, recs, outs):
     for (c, op, impl, exact), ans in zip(recs, outs):
         case = {'op': 'c' + op, 'cstream': c}
+        if isinstance(impl, float) and math.isnan(impl):
+            impl = 'err:nonfinite'      # sqrt of a negative real part
         if isinstance(impl, str):
             if ans != impl:
                 ctx.disagree(case, impl, ans)
@@ -1838,7 +1955,8 @@ def compare_custom(ctx, recs, outs):
                     (abs(float(m) - impl) > 1e-12 * max(abs(float(m)), abs(impl))):
                 ctx.disagree(case, repr(impl), repr(float(m)))
                 continue
-        ctx.hit('custom/{}/{}/{}'.format(c['k'], c['ck'], op))
+        ctx.hit('custom/{}/{}/{}'.format(c['k'], 'form' if c.get('C') is not None else c['ck'],
+                                         op))
 
 
 def run_custom(ctx):
